@@ -39,8 +39,11 @@ RULE = ("Systems of <=5 variables and <=8 rows  a.x op b  (op in >=,<=,>,<; coef
         "lexicographically); a 'contradiction/unsatisfiable' answer is refuted only by a concrete model from Z3 (own "
         "LIA/LRA encoding of the rows) that validates by substitution, with a brute-force box as second witness source "
         "for <=3 variables; a returned proof must pass theory.check_proof, conclude false, and every hypothesis must "
-        "read back (own linear-term reader) as one of the given rows. NOCONCL, exceptions, node-budget and timer hits "
-        "are inconclusive. Non-trivial: >=2 rows, >=2 variables with a non-zero coefficient, and a definite verdict; "
+        "read back (own linear-term reader) as one of the given rows. NOCONCL, exceptions, node-budget and (CPU-time) "
+        "timer hits are inconclusive. Signatures are component:failure-class:input-feature; a feature (non-unit "
+        "single-variable row, shared left-hand side, zero-coefficient jar, zero row, x_k variable names) is assigned only "
+        "when the failure disappears on an equivalent input without it, and then verdict, witness and proof failures "
+        "caused by it are filed together as 'wrong-result'. Non-trivial: >=2 rows, >=2 variables with a non-zero coefficient, and a definite verdict; "
         "distinct by canonical JSON.")
 ASSUMPTIONS = [
     "raw matrices are in the domain of omega.solve_matrix (observe_at names it; OmegaHOL passes omega_form_conv output "
@@ -54,6 +57,11 @@ ASSUMPTIONS = [
     "hypotheses of a returned proof are compared semantically (same coefficients, relation and bound, no scaling; "
     "`1 * x` = `x`; for integers  t > b  =  t >= b+1), not syntactically",
     "PYTHONHASHSEED=0 pins the iteration order of the sets of variable names inside Simplex",
+    "StrictSimplexMacro is given at least one strict comparison (its only caller, prover/proofrec.py, guarantees it; "
+    "without one it returns the wrapper's proof over the internal names x_0, x_1, ..)",
+    "the 'satisfiable' result of the two real macros is a dict over internal fresh names x_<k>; it is read as the "
+    "k-th variable in order of first occurrence in the given terms",
+    "time limits count CPU time of the worker (ITIMER_PROF), not wall-clock time",
 ]
 SHRINK_SECONDS = 20
 SHRINK_BUDGET = 150
